@@ -7,4 +7,44 @@ def crc32ByteStep (crc : UInt32) (b : UInt8) : UInt32 :=
 
 def crc32 (bs : List UInt8) : UInt32 := (bs.foldl crc32ByteStep 0xFFFFFFFF) ^^^ 0xFFFFFFFF
 
+
+/-! ### The same checksum over `Nat` (cheap for the Lean kernel: `Nat.xor`, `/`, `%` are evaluated by GMP), bit by bit
+and table driven. `crc32T_eq_crc32N` (TongoProofs/Lemmas/Crc32.lean) proves the two equal for every input; the driver
+validates `crc32N` against Go's hash/crc32 on every run. -/
+
+def poly32 : Nat := 0xEDB88320
+
+/-- one bit of the reflected CRC register -/
+def bitStepN (c : Nat) : Nat := if c % 2 = 1 then (c / 2) ^^^ poly32 else c / 2
+
+def iterStepN : Nat → Nat → Nat
+  | 0, c => c
+  | k + 1, c => iterStepN k (bitStepN c)
+
+def byteStepN (c b : Nat) : Nat := iterStepN 8 (c ^^^ b)
+
+/-- bitwise CRC-32 of a list of byte values -/
+def crc32N (bs : List Nat) : Nat := (bs.foldl byteStepN 0xFFFFFFFF) ^^^ 0xFFFFFFFF
+
+/-- `crcTable[i]` = four bit steps applied to the nibble `i` -/
+def crcTable : List Nat := [
+  0x00000000, 0x1db71064, 0x3b6e20c8, 0x26d930ac, 0x76dc4190, 0x6b6b51f4, 0x4db26158, 0x5005713c,
+  0xedb88320, 0xf00f9344, 0xd6d6a3e8, 0xcb61b38c, 0x9b64c2b0, 0x86d3d2d4, 0xa00ae278, 0xbdbdf21c]
+
+/-- four bit steps at once -/
+def nibbleStepT (x : Nat) : Nat := crcTable.getD (x % 16) 0 ^^^ (x / 16)
+
+def byteStepT (c b : Nat) : Nat := nibbleStepT (nibbleStepT (c ^^^ b))
+
+/-- the accumulator is matched on so that the kernel evaluates it at every byte (no chain of suspended steps) -/
+def crc32TAux : List Nat → Nat → Nat
+  | [], c => c
+  | b :: bs, c =>
+    match byteStepT c b with
+    | 0 => crc32TAux bs 0
+    | n + 1 => crc32TAux bs (n + 1)
+
+/-- table-driven CRC-32 -/
+def crc32T (bs : List Nat) : Nat := crc32TAux bs 0xFFFFFFFF ^^^ 0xFFFFFFFF
+
 end Tongo.Crc
